@@ -481,6 +481,111 @@ theorem adapter_preserves (c : Caps) (name : Option String) (fill compute : Stri
   ⟨call_preserves c name, sourceEl_preserves c name, run_preserves c name, fillInto_preserves c name,
    fillCompute_preserves c fill compute⟩
 
+/-! ### the meaning of the exposed method
+
+The theorems above say *which* method an adapter binds.  With the behaviour of an object's methods given by name
+(`Meths`), `denRun` … are the behaviour of the method the adapter exposes; the theorems below say that it is the
+behaviour of the wrapped method (or the documented conversion), so that a wrong binding is a wrong theorem.  The driver
+evaluates `denRun` … on samples for the synthetic classes, the harness compares with the real adapter objects. -/
+
+/-- what `Call(el, call=name)(value)` is documented to do -/
+def callMeaning (o : Obj) (ms : Meths) : Option String → Option (Value → Except Exc Value)
+  | none => some o.callDen
+  | some n => ms.callM n
+
+/-- what `Run(el, run=name).run(flow)` is documented to do: the method of that name (the given function for
+`el is None`); without a name the element's own `run`, else the map of the callable, else fill-all-then-compute -/
+def runMeaning (o : Obj) (ms : Meths) (given : Stage Value) : Option String → Option (Stage Value)
+  | some n => if o.caps.isNone then some given else ms.runM n
+  | none =>
+    if o.caps.hasMethod "run" then ms.runM "run"
+    else if o.caps.callable then some (fun s => .ok (mapS o.callDen s))
+    else some (fcRun o.accDen)
+
+/-- what `FillInto(el, fill_into=name).fill_into(element, value)` is documented to do -/
+def fillIntoMeaning (o : Obj) (ms : Meths) : Option String → Option (Pre Value)
+  | some n => ms.fillIntoM n
+  | none =>
+    if o.caps.hasMethod "fill_into" then ms.fillIntoM "fill_into"
+    else if o.caps.callable && !o.caps.isSplit then some (.call o.callDen)
+    else some (.runEl o.runDen)
+
+theorem call_preserves_meaning (o : Obj) (ms : Meths) (name : Option String) (m : CallMode)
+    (h : mkCall o.caps name = .ok m) : denCall o ms m = callMeaning o ms name := by
+  rw [call_preserves o.caps name m h]
+  cases name <;> rfl
+
+theorem run_preserves_meaning (o : Obj) (ms : Meths) (given : Stage Value) (name : Option String) (m : RunMode)
+    (h : mkRun o.caps name = .ok m) : denRun o ms given m = runMeaning o ms given name := by
+  rw [run_preserves o.caps name m h]
+  cases name with
+  | some n =>
+    simp only [runBinding, runMeaning]
+    split <;> rfl
+  | none =>
+    simp only [runBinding, runMeaning]
+    split
+    · rfl
+    · split <;> rfl
+
+theorem fillInto_preserves_meaning (o : Obj) (ms : Meths) (name : Option String) (m : FillIntoMode)
+    (h : mkFillInto o.caps name = .ok m) : denFillInto o ms m = fillIntoMeaning o ms name := by
+  rw [fillInto_preserves o.caps name m h]
+  cases name with
+  | some n => rfl
+  | none =>
+    simp only [fillIntoBinding, fillIntoMeaning]
+    split
+    · rfl
+    · split <;> rfl
+
+/-- `FillCompute(el, fill=f, compute=c)`: `fill` is the method `f`; `compute` is the method `c`, or `request` -/
+theorem fillCompute_preserves_meaning (o : Obj) (ms : Meths) (fill compute : String) (b : String × String)
+    (h : mkFillCompute o.caps fill compute = .ok b) :
+    denFillCompute ms b = ms.accM fill (if o.caps.hasMethod compute then compute else "request") := by
+  rw [fillCompute_preserves o.caps fill compute b h]
+  rfl
+
+theorem attr_present_of_callable {a : Attr} (h : a.callable = true) : a.present = true := by
+  cases a <;> simp_all [Attr.callable, Attr.present]
+
+/-- **`Sequence.__init__` is the `Run` adapter**: the stage an element becomes in a `Sequence` is the behaviour of
+`Run(el).run` (and `LenaTypeError` exactly when `Run(el)` raises) -/
+theorem toStage_is_run_adapter (o : Obj) :
+    o.toStage = (match mkRun o.caps none with
+      | .error _ => .error .lenaTypeError
+      | .ok m =>
+        match denRun o o.meths (fun s => .ok s) m with
+        | some st => .ok st
+        | none => .error .lenaTypeError) := by
+  simp only [Obj.toStage, mkRun, Caps.hasMethod, Obj.meths, denRun]
+  by_cases h1 : (o.caps.attr "run").callable = true
+  · simp [h1, attr_present_of_callable h1]
+  · have h1' : (o.caps.attr "run").callable = false := by simpa using h1
+    by_cases h2 : o.caps.callable = true
+    · simp [h1', h2]
+    · by_cases h3 : o.caps.isFillComputeEl = true
+      · simp [h1', h2, h3]
+      · simp [h1', h2, h3]
+
+/-- **`FillSeq.__init__` is the `FillInto` adapter** -/
+theorem toPre_is_fillInto_adapter (o : Obj) :
+    o.toPre = (match mkFillInto o.caps none with
+      | .error _ => .error .lenaTypeError
+      | .ok m =>
+        match denFillInto o o.meths m with
+        | some p => .ok p
+        | none => .error .lenaTypeError) := by
+  simp only [Obj.toPre, mkFillInto, Caps.hasMethod, Obj.meths, denFillInto]
+  by_cases h1 : (o.caps.attr "fill_into").callable = true
+  · simp [h1, attr_present_of_callable h1]
+  · have h1' : (o.caps.attr "fill_into").callable = false := by simpa using h1
+    by_cases h2 : (o.caps.callable && !o.caps.isSplit) = true
+    · simp [h1', h2]
+    · by_cases h3 : (o.caps.isRunEl && (o.caps.attr "_can_break_flow").present) = true
+      · simp [h1', h2, h3]
+      · simp [h1', h2, h3]
+
 /-- a callable object with a method `fill_negated` and a non-callable attribute `not_a_method` (the `Scaler` of the
 seeded demonstration) -/
 def exScaler : Caps := capsOf [("fill_negated", .method), ("not_a_method", .value)] true
@@ -654,14 +759,18 @@ theorem bindS_breaksFlow (g : α → Strm α) : BreaksFlow (fun s => .ok (bindS 
   exact (Strm.andThen_nil _).symm
 
 /-- element descriptions of the property's pre-processing kinds: callable, `Variable`, `Filter`, `Slice` with
-non-negative arguments (a valid step), `RunIf` (and `dup`, another Run element that can break the flow) -/
+non-negative arguments (a valid step), `RunIf` whose inner elements keep no state between calls (the model runs the
+inner sequence afresh for every value: a `RunIf` around `Count`/an accumulator is NOT covered by the theorems below,
+only by the oracle on the real code), `dup` (another Run element that can break the flow) -/
 def Spec.InScope : Spec → Prop
   | .call _ => True
   | .var _ _ => True
   | .filter _ => True
   | .slice a b s => ∃ a' b' st, Lena.C17.mkSlice a b s = .islice a' b' st
-  | .runIf _ _ => True
+  | .runIf _ inner => Spec.statelessL inner = true
   | .dup => True
+  | .filterT _ => True
+  | .const _ => True
   | _ => False
 
 theorem inScopeB_iff (s : Spec) : s.inScopeB = true ↔ s.InScope := by
@@ -750,6 +859,22 @@ theorem spec_preKind (s : Spec) (hs : s.InScope) (o : Obj) (ho : s.toObj = .ok o
   | junk => cases hs
   | setContext => cases hs
   | runIfBad _ => cases hs
+  | filterT q =>
+    simp only [Spec.toObj, Except.ok.injEq] at ho
+    subst ho
+    refine ⟨.ownFillInto rfl rfl rfl, rfl, rfl, ?_⟩
+    intro p' hp
+    change Except.ok (Pre.filter q.eval) = Except.ok p' at hp
+    cases hp
+    trivial
+  | const c =>
+    simp only [Spec.toObj, Except.ok.injEq] at ho
+    subst ho
+    refine ⟨.callable rfl rfl rfl rfl, rfl, rfl, ?_⟩
+    intro p hp
+    change Except.ok (Pre.call (fun _ => Except.ok c)) = Except.ok p at hp
+    cases hp
+    trivial
   | dup =>
     simp only [Spec.toObj, Except.ok.injEq] at ho
     subst ho
@@ -1323,5 +1448,197 @@ theorem dataSeq_idem (args : List Obj) : dataSeq (dataSeq args) = dataSeq args :
 theorem nodata_dropped (args : List Obj) :
     mkSequence args = mkSequence (dataSeq args) ∧ mkFillComputeSeq args = mkFillComputeSeq (dataSeq args) := by
   simp only [mkSequence, mkFillComputeSeq, dataSeq_idem, and_self]
+
+/-! ## 8. The statement as written, what is proved of it, and further instances
+
+Sentence 1 says "for every chain … the results are identical".  That is false of the code and of the model
+(`three_drivers_agree_full_false`: the look-ahead value of `Slice.fill_into`, notes/C05_judgement_lookahead.md).
+What is proved is the statement under the hypothesis `PreSafe` (`…_partial`), the statement without a `Slice` before
+the accumulator with hypotheses on the elements only (`three_drivers_agree_no_slice_inputs`), and the unconditional
+equality of the two fill-side drivers (`fill_eq_split`). -/
+
+/-- sentence 1 as written: no hypothesis on the flow -/
+def three_drivers_agree_full : Prop :=
+  ∀ (σ α : Type) (c : Chain σ α) (xs : List α) (bufsize : Option Nat), bufsize ≠ some 0 →
+    PreWF c.pre → AccNoStop c.acc →
+    seqRun c xs = fillRun c xs ∧ splitRun [c] bufsize xs = fillRun c xs
+
+theorem exBoom_wf : PreWF exBoom.pre := by
+  intro e he
+  simp only [exBoom, List.mem_cons, List.not_mem_nil, or_false] at he
+  rcases he with rfl | rfl
+  · trivial
+  · show 1 ≤ 1
+    omega
+
+/-- **the statement as written is false**: `(boom, Slice(1), Sum())` on `[1, 13]` — `Sequence.run` yields `[1]`,
+the fill driver raises `ValueError` (on the real code as well: `corpus/C05/regressions.json`, first case) -/
+theorem three_drivers_agree_full_false : ¬ three_drivers_agree_full := by
+  intro h
+  have h0 := (h Int Int exBoom [1, 13] (some 1) (by decide) exBoom_wf exSum_noStop).1
+  have h1 : seqRun exBoom [1, 13] = ⟨[1], none⟩ := by rfl
+  have h2 : fillRun exBoom [1, 13] = .fail .valueError := by rfl
+  rw [h1, h2] at h0
+  simp [Strm.fail] at h0
+
+/-- the proved part of sentence 1 (hypothesis `PreSafe`) -/
+theorem three_drivers_agree_partial (c : Chain σ α) (xs : List α) (bufsize : Option Nat) (hb : bufsize ≠ some 0)
+    (hwf : PreWF c.pre) (hacc : AccNoStop c.acc) (hsafe : PreSafe c.pre xs) :
+    seqRun c xs = fillRun c xs ∧ splitRun [c] bufsize xs = fillRun c xs :=
+  three_drivers_agree c xs bufsize hb hwf hacc hsafe
+
+/-! ### no `Slice`: hypotheses on the elements only -/
+
+/-- the element never raises `LenaStopFill` by itself (only `Slice.fill_into` does) -/
+def Pre.NoStopExc : Pre α → Prop
+  | .call f => ∀ v, f v ≠ .error .lenaStopFill
+  | .filter p => ∀ v, p v ≠ .error .lenaStopFill
+  | .slice _ _ _ => True
+  | .runEl r => ∀ v, (observe (r (.ofList [v]))).term ≠ some .lenaStopFill
+
+/-- the sink never answers a `fill` with `LenaStopFill` -/
+def NeverStops (K : Sink κ α) : Prop := ∀ s v s', K.fill s v ≠ .stop s'
+
+theorem feedList_neverStops (K : Sink κ α) (hK : NeverStops K) : ∀ (xs : List α) (s s' : κ),
+    feedList K s xs ≠ .stop s'
+  | [], s, s' => by simp [feedList]
+  | x :: xs, s, s' => by
+    simp only [feedList]
+    cases hk : K.fill s x with
+    | ok s1 => exact feedList_neverStops K hK xs s1 s'
+    | stop s1 => exact absurd hk (hK s x s1)
+    | err e => simp
+
+theorem raise_ne_stop (e : Exc) (he : e ≠ .lenaStopFill) (s s' : κ) : FillRes.raise e s ≠ .stop s' := by
+  simp [FillRes.raise, he]
+
+theorem map_ne_stop {β : Type} (f : κ → β) (r : FillRes κ) (h : ∀ s', r ≠ .stop s') (t : β) : r.map f ≠ .stop t := by
+  cases r with
+  | ok s => simp [FillRes.map]
+  | stop s => exact absurd rfl (h s)
+  | err e => simp [FillRes.map]
+
+theorem stageSink_neverStops (e : Pre α) (hns : e.isSlice = false) (he : e.NoStopExc) (K : Sink κ α)
+    (hK : NeverStops K) : NeverStops (stageSink e K) := by
+  intro ⟨fs, s⟩ v ⟨fs', s'⟩
+  cases e with
+  | call f =>
+    simp only [stageSink, stageFill]
+    cases hf : f v with
+    | error err => exact raise_ne_stop err (fun h => he v (h ▸ hf)) _ _
+    | ok w => exact map_ne_stop _ _ (fun t => hK s w t) _
+  | filter p =>
+    simp only [stageSink, stageFill]
+    cases hp : p v with
+    | error err => exact raise_ne_stop err (fun h => he v (h ▸ hp)) _ _
+    | ok b =>
+      cases b with
+      | true => exact map_ne_stop _ _ (fun t => hK s v t) _
+      | false => simp
+  | slice a b st => simp [Pre.isSlice] at hns
+  | runEl r =>
+    simp only [stageSink, stageFill]
+    apply map_ne_stop
+    intro t
+    simp only [feedS]
+    cases hfl : feedList K s (observe (r (.ofList [v]))).vals with
+    | ok s1 =>
+      simp only
+      cases ht : (observe (r (.ofList [v]))).term with
+      | none => simp
+      | some err => exact raise_ne_stop err (fun h => he v (by rw [ht, h])) _ _
+    | stop s1 => exact absurd hfl (feedList_neverStops K hK _ _ _)
+    | err err => simp
+
+theorem accSink_neverStops (a : Acc σ α) (ha : AccNoStop a) : NeverStops (accSink a) := by
+  intro s v s'
+  simp only [accSink]
+  cases hf : a.fill s v with
+  | ok s1 => simp
+  | error e => exact raise_ne_stop e (fun h => ha s v (h ▸ hf)) _ _
+
+theorem chainSink_neverStops (a : Acc σ α) (ha : AccNoStop a) : ∀ (pre : List (Pre α)), NoSlice pre →
+    (∀ e ∈ pre, e.NoStopExc) → NeverStops (chainSink a pre)
+  | [], _, _ => accSink_neverStops a ha
+  | e :: rest, hns, hne => by
+    obtain ⟨h1, h2⟩ := noSlice_cons hns
+    exact stageSink_neverStops e h1 (hne e (List.mem_cons_self ..)) _
+      (chainSink_neverStops a ha rest h2 (fun e' he' => hne e' (List.mem_cons_of_mem _ he')))
+
+/-- **without a `Slice` before the accumulator, with hypotheses on the elements only** (nobody raises `LenaStopFill`
+by himself): the three drivers agree on every flow, also when an element raises — same exception, same place -/
+theorem three_drivers_agree_no_slice_inputs (c : Chain σ α) (xs : List α) (bufsize : Option Nat)
+    (hb : bufsize ≠ some 0) (hwf : PreWF c.pre) (hns : NoSlice c.pre) (hne : ∀ e ∈ c.pre, e.NoStopExc)
+    (hacc : AccNoStop c.acc) :
+    seqRun c xs = fillRun c xs ∧ splitRun [c] bufsize xs = fillRun c xs :=
+  three_drivers_agree_no_slice c xs bufsize hb hwf hns
+    (fun st => feedList_neverStops _ (chainSink_neverStops c.acc hacc c.pre hns hne) xs _ st)
+
+/-- `(boom, Filter(even), Sum())`: no `Slice`, `boom` raises on 13 -/
+def exNoSlice : Chain Int Int :=
+  { pre := [.call (fun v => if v = 13 then .error .valueError else .ok v), .filter (fun v => .ok (v % 2 == 0))]
+    acc := exSum, post := [] }
+
+example : seqRun exNoSlice [2, 13, 4] = .fail .valueError ∧ fillRun exNoSlice [2, 13, 4] = .fail .valueError ∧
+    splitRun [exNoSlice] (some 2) [2, 13, 4] = .fail .valueError := ⟨by rfl, by rfl, by rfl⟩
+
+example : seqRun exNoSlice [2, 13, 4] = fillRun exNoSlice [2, 13, 4] ∧
+    splitRun [exNoSlice] none [2, 13, 4] = fillRun exNoSlice [2, 13, 4] := by
+  apply three_drivers_agree_no_slice_inputs exNoSlice _ none (by decide)
+  · intro e he
+    simp only [exNoSlice, List.mem_cons, List.not_mem_nil, or_false] at he
+    rcases he with rfl | rfl <;> trivial
+  · intro e he
+    simp only [exNoSlice, List.mem_cons, List.not_mem_nil, or_false] at he
+    rcases he with rfl | rfl <;> rfl
+  · intro e he
+    simp only [exNoSlice, List.mem_cons, List.not_mem_nil, or_false] at he
+    rcases he with rfl | rfl
+    · intro v h
+      simp only at h
+      split at h <;> cases h
+    · intro v h
+      cases h
+  · exact exSum_noStop
+
+/-! ### instances of the theorems of sections 1, 7 (non-vacuity) -/
+
+example := stage_consistent (.filter (fun (v : Int) => .ok (v % 2 == 0))) trivial storeSink [] [1, 2, 3, 4]
+  ⟨[2, 4], none⟩ rfl rfl
+
+example : (feedS (stageSink (.call (fun v => if v = 13 then .error .valueError else .ok v)) storeSink)
+    (Lena.C17.fillInit 0, []) ⟨[1, 13, 2], none⟩).map Prod.snd = feedS storeSink [] ⟨[1], some .valueError⟩ :=
+  stage_consistent_strong (.call (fun v => if v = 13 then .error .valueError else .ok v)) rfl trivial storeSink _ []
+    ⟨[1, 13, 2], none⟩ ⟨[1], some .valueError⟩ rfl
+
+example := delivered_same exChain.pre exSum (fun s => .ok s) [] [1, 2, 3, 4, 5, 6, 7, 8, 9] exChain_wf exSum_noStop
+  (by rfl)
+
+example := count_dual [] "n" [.int 5, .int 7] (by intro e he; cases he) (by rfl)
+
+/-- `(inc, Slice(-2), Sum())` -/
+def exNeg : Chain Int Int :=
+  { pre := [.call (fun v => .ok (v + 1))] ++ negSliceFill :: [], acc := exSum, post := [] }
+
+example := neg_slice_fillRun exNeg [.call (fun v => .ok (v + 1))] [] rfl [1, 2]
+  (by intro e he; simp at he; subst he; trivial) (by rfl)
+example : fillRun exNeg [1, 2] = .fail .attributeError := by rfl
+example : fillRun exNeg [] = ⟨[0], none⟩ := by rfl
+
+example : splitFillRun exInner [1, 2] = splitRunTagged exInner (some 1) [1, 2] :=
+  split_fill_eq_run exInner (some 1) (by decide) [1, 2] (by
+    intro c hc
+    simp only [exInner, List.mem_cons, List.not_mem_nil, or_false] at hc
+    rcases hc with rfl | rfl <;> exact ⟨_, rfl⟩)
+
+/-- `Reverse()` (only `run`) and `Sum()` as objects -/
+def exRevObj : Obj := { caps := capsOf [("run", .method)] false }
+def exSumObj : Obj := { caps := capsOf [("fill", .method), ("compute", .method)] false, accDen := accOf .sum }
+
+example : mkFillComputeSeq ([exRevObj] ++ exSumObj :: []) = .error .lenaTypeError :=
+  fillComputeSeq_rejects [exRevObj] [] exSumObj
+    (by intro o ho; simp only [List.mem_cons, List.not_mem_nil, or_false] at ho; subst ho; exact ⟨rfl, rfl⟩)
+    ⟨rfl, rfl⟩ ⟨exRevObj, by simp, .lenaTypeError, rfl⟩
+example : ∃ st, mkSequence ([exRevObj] ++ exSumObj :: []) = .ok st := ⟨_, rfl⟩
 
 end Lena.C05
